@@ -84,3 +84,26 @@ def covers : Bitset → Bitset → Bool
 
 #print axioms test_set
 end Bits
+namespace AndEq
+/-- the generated test `satisfied[i] & mask == mask`, bitwise -/
+theorem and_eq_iff (s m : BitVec 8) : (s &&& m = m) ↔ ∀ k, k < 8 → m.getLsbD k = true → s.getLsbD k = true := by
+  constructor
+  · intro h k _ hk
+    have : (s &&& m).getLsbD k = m.getLsbD k := by rw [h]
+    rw [BitVec.getLsbD_and, hk] at this
+    simpa using this
+  · intro h
+    apply BitVec.eq_of_getLsbD_eq
+    intro k hk
+    rw [BitVec.getLsbD_and]
+    cases hm : m.getLsbD k with
+    | false => simp
+    | true => simp [h k hk hm]
+
+theorem and_eq_iff_u8 (s m : UInt8) : (s &&& m = m) ↔ ∀ k, k < 8 → m.toBitVec.getLsbD k = true → s.toBitVec.getLsbD k = true := by
+  rw [← and_eq_iff]
+  constructor
+  · intro h; have := congrArg UInt8.toBitVec h; simpa using this
+  · intro h; apply UInt8.toBitVec_inj.mp; simpa using h
+#print axioms and_eq_iff_u8
+end AndEq
